@@ -118,7 +118,7 @@ class Scheduled:
     """Runs len(texts) parse calls on ONE engine in real threads; `schedule` is a list of call
     indices: the named call is released to run until it next enters Lexer.token (or finishes)."""
 
-    def __init__(self, eng, texts, timeout=5.0):
+    def __init__(self, eng, texts, timeout=60.0):
         self.eng, self.texts, self.timeout = eng, texts, timeout
         n = len(texts)
         self.go = [threading.Semaphore(0) for _ in range(n)]
